@@ -1,0 +1,15 @@
+//go:build verif
+
+package storage
+
+// Verification hooks (build tag "verif").
+
+// VerifSetFilename changes the file the storage is written to on Stop.
+func (s *JSONFileStorage) VerifSetFilename(filename string) {
+	s.filename = filename
+}
+
+// VerifContent returns the stored routers and mappings in the storage's file format.
+func (s *JSONFileStorage) VerifContent() *JSONStorageFormat {
+	return &JSONStorageFormat{Routers: s.routers, Mappings: s.mappings}
+}
